@@ -54,7 +54,7 @@ def shapes():
     return out
 
 
-def gen_cases(ctx):
+def _gen_cases_ordered(ctx):
     rng = ctx.grng("c09")
     shp = shapes()
     i = 0
@@ -93,7 +93,7 @@ def gen_cases(ctx):
                 if model.model_id(shp[x][0]) not in used:
                     used.add(model.model_id(shp[x][0]))
                     jobs.append(x)
-            yield {"jobs": jobs, "damage": damage, "cache": (k // per) % 2 == 0}
+            yield {"jobs": jobs, "damage": damage, "cache": (k // per) % 2 == 0, "grp": "single"}
         i += 1
     # multi-job damage incl. swaps and cross-job replacement
     for _ in range(ctx.budget(3000, 40000)):
@@ -129,6 +129,35 @@ def gen_cases(ctx):
             rng.random()
         i += 1
 
+
+
+class _Everything:
+    """ctx stand-in for building the complete, ordered case list (sharding is applied afterwards)."""
+
+    def __init__(self, ctx):
+        self._ctx = ctx
+
+    def take(self, i):
+        return True
+
+    def __getattr__(self, name):
+        return getattr(self._ctx, name)
+
+
+def gen_cases(ctx):
+    # single-job and multi-job damage alternate, so that a time cap (a loaded machine) thins both kinds evenly
+    cases = list(_gen_cases_ordered(_Everything(ctx)))
+    single = [c for c in cases if c.get("grp") == "single"]
+    multi = [c for c in cases if c.get("grp") != "single"]
+    merged = []
+    for k in range(max(len(single), len(multi))):
+        if k < len(multi):
+            merged.append(multi[k])
+        if k < len(single):
+            merged.append(single[k])
+    for i, c in enumerate(merged):
+        if ctx.take(i):
+            yield c
 
 def classify_dir(ws, name):
     """None if the directory validates, else a reason string."""
